@@ -247,7 +247,12 @@ Definition eval_query (q : qtemplate) (docs : list qdoc) : list string :=
 (* what the map function is shown: the parsed body if the document is JSON and has a body, else {} ;
    meta.xattrs only if the xattrs column holds a non-empty object *)
 Definition map_doc (r : row) : option json :=
-  if r_isJSON r then match r_value r with Some v => jparse v | None => Some (JObj []) end else Some (JObj []).
+  if r_isJSON r then
+    match r_value r with
+    | Some v => if String.eqb v "" then Some (JObj []) else jparse v   (* a zero-length blob scans as a nil []byte: "{}" *)
+    | None => Some (JObj [])
+    end
+  else Some (JObj []).
 
 Definition map_xattrs (r : row) : list (string * string) :=
   match xparse (r_xattrs r) with Some m => m | None => [] end.
